@@ -76,11 +76,23 @@ def make_aggregate(qr, spec, mult=1, build=True, rwa=True):
             m = qr.Molecule([g0, g0 + float(spec["E"][i])])
             if "d" in spec:
                 m.set_dipole(0, 1, list(spec["d"][i]))
-            if time is not None:
+            if time is not None and not spec.get("correlated"):
                 cf = qr.CorrelationFunction(time, bath_params(spec["bath"][i], spec["T"]))
                 m.set_transition_environment((0, 1), cf)
             mols.append(m)
+        cm = None
+        if time is not None and spec.get("correlated"):
+            # fully correlated energy-gap fluctuations: one correlation function for every pair of sites, handed over
+            # as a correlation function matrix to which the molecules' transitions are mapped
+            from quantarhei.qm.corfunctions import CorrelationFunctionMatrix
+            cf = qr.CorrelationFunction(time, bath_params(spec["bath"][0], spec["T"]))
+            cm = CorrelationFunctionMatrix(time, n)
+            cm.set_correlation_function(cf, [(i, j) for i in range(n) for j in range(n)])
+            for i, m in enumerate(mols):
+                m.set_egcf_mapping((0, 1), cm, i)
         agg = qr.Aggregate(molecules=mols)
+        if cm is not None:
+            agg.set_egcf_matrix(cm)
         for i in range(n):
             for j in range(i + 1, n):
                 if spec["J"][i][j] != 0:
